@@ -389,9 +389,19 @@ func stressPkcs7(n, iters int, r *stressRes) {
 		}
 		envs[g] = e
 	}
+	// a legal BER value nested 100 levels deep (indefinite lengths), and what the transcoder makes of it when it runs alone
+	deep := append(bytes.Repeat([]byte{0x30, 0x80}, 100), 0x04, 0x01, 0x55)
+	deep = append(deep, bytes.Repeat([]byte{0x00, 0x00}, 100)...)
+	deepDER, deepErr := x509.VerifBer2Der(deep)
 	parallel(n, func(g int) {
 		for i := 0; i < iters; i++ {
 			guard(r, "pkcs7", func() {
+				for k := 0; k < 20; k++ {
+					if d, err := x509.VerifBer2Der(deep); (err == nil) != (deepErr == nil) || !bytes.Equal(d, deepDER) {
+						r.bad("BER transcoding of a 100-level value differs from the single-threaded result (goroutine %d): %v", g, err)
+						break
+					}
+				}
 				p7, err := x509.ParsePKCS7(envs[g])
 				if err != nil {
 					r.bad("ParsePKCS7: %v", err)
